@@ -160,6 +160,18 @@ def check_c13(mon, settings, out, tag):
                     chi, p = stats.chisquare(o2, e2)
                     mon.check('marginal-distribution', p >= ALPHA, mechanism='C13/marginal-does-not-follow-requested-distribution:binomial',
                               name=nm, dist=d, n=len(xs), chi2=float(chi), p=float(p), **tag)
+    # ---- tails of the normal inputs (pooled over the inputs of the run, in units of the requested standard deviation): with
+    # N >= 5200 draws the chance that none lies beyond 3 sigma is 0.9973^N < 1e-6; the upper limit is 10 sigma of the count
+    zs = []
+    for nm, xs in samples.items():
+        d = dists.get(nm)
+        if d is not None and d[0] == 'normal' and float(d[2]) > 0:
+            zs += [(x - float(d[1])) / float(d[2]) for x in xs]
+    if len(zs) >= 5200:
+        k = sum(1 for z in zs if abs(z) > 3.0)
+        m = len(zs) * 0.0026998
+        mon.check('normal-tails-present', 1 <= k <= m + 10.0 * m ** 0.5 + 10, mechanism='C13/tails-of-the-normal-distribution-missing-or-inflated',
+                  draws=len(zs), beyond_3_sigma=k, expected=round(m, 1), max_abs_z=max(abs(z) for z in zs), **tag)
     pids = {e['pid'] for e in out['events']}
     return len(pids)
 
@@ -210,6 +222,15 @@ def run(ctx):
     plans = schedules(ctx)
     jobs = [{'fn': 'gxv.props.c13:mc_job', 'args': {'settings': st, 'workers': w, 'delay': d},
              'timeout': 900 + st['iterations']} for st, w, d in plans]
+    # directed run for the tails: five normal inputs (means at least 6 sigma inside the parameters' ranges, so that no iteration
+    # fails because of a tail draw), enough fast HIP-RA-X iterations for 5200+ pooled draws
+    n_t = ctx.pick(1100, 4000)
+    t_inputs = [('Reservoir Temperature', ['normal', 150, 8]), ('Rejection Temperature', ['normal', 25, 2]),
+                ('Reservoir Porosity', ['normal', 18, 2]), ('Reservoir Area', ['normal', 80, 6]), ('Reservoir Thickness', ['normal', 0.2, 0.01])]
+    t_st = {'program': 'HIP-RA-X', 'inputs': t_inputs, 'outputs': mc.HIP_OUTPUTS[:1], 'iterations': n_t, 'failure': 0.0,
+            'text': '\n'.join([f'INPUT, {nm}, {d[0]}, {d[1]}, {d[2]}' for nm, d in t_inputs] + [f'OUTPUT, {mc.HIP_OUTPUTS[0]}', f'ITERATIONS, {n_t}']) + '\n'}
+    jobs.append({'fn': 'gxv.props.c13:mc_job', 'args': {'settings': t_st, 'workers': 16, 'delay': 0.0}, 'timeout': 1800})
+    plans = plans + [(t_st, 16, 0.0)]
     jobs.sort(key=lambda j: -j['args']['settings']['iterations'])
     npids = 0
     with Pool(5) as pool:
@@ -235,7 +256,7 @@ def run(ctx):
                          'iteration_counts': sorted({st['iterations'] for st, _, _ in plans})})
     ctx.required.update({'rows-exactly-once': 8, 'sample-vectors-distinct': 8, 'samples-in-support': 20,
                          'continuous-input-values-distinct': 20, 'continuous-samples-not-discretised': 20, 'worker-sequences-differ': 1,
-                         'marginal-distribution': 6, 'every-iteration-started': 8})
+                         'marginal-distribution': 6, 'every-iteration-started': 8, 'normal-tails-present': 1})
     ctx.rule = ('Monte-Carlo runs of the real client over settings files mixing uniform / normal / triangular / lognormal / '
                 'binomial inputs (GEOPHIRES fast base and HIP-RA-X), iteration counts {1,3,16,17,40,120,300(,1000)}, the pool '
                 'forced to {1,2,4,16,32} workers by a ProcessPoolExecutor subclass that only presets max_workers, random '
